@@ -8,6 +8,7 @@ import (
 	"github.com/LiskHQ/lisk-engine/pkg/consensus/liskbft"
 	"github.com/LiskHQ/lisk-engine/pkg/db"
 	"github.com/LiskHQ/lisk-engine/pkg/db/diffdb"
+	"github.com/LiskHQ/lisk-engine/pkg/labi"
 )
 
 type Val struct {
@@ -15,9 +16,10 @@ type Val struct {
 	W uint64 `json:"w"`
 }
 type Change struct {
-	PC   uint64 `json:"pc"`
-	Cert uint64 `json:"cert"`
-	Vals []Val  `json:"vals"`
+	PC      uint64   `json:"pc"`
+	Cert    uint64   `json:"cert"`
+	Vals    []Val    `json:"vals"`
+	Standby []uint32 `json:"standby"` // additional generators without BFT weight
 }
 type Block struct {
 	H    uint32  `json:"h"`
@@ -38,9 +40,38 @@ type Obs struct {
 	Infos   [][6]uint64 `json:"infos"` // height, gen, mhg, mhp, prevote weight, precommit weight
 	Act     [][3]uint32 `json:"act"`   // addr, minActiveHeight, largestHeightPrecommit
 	PKeys   []uint32    `json:"pkeys"`
-	IMP     int         `json:"imp"`  // ImpliesMaximalPrevotes: 0 false 1 true 2 error
-	Next    int64       `json:"next"` // NextHeightBFTParameters(tip) or -1
+	IMP     int         `json:"imp"`   // ImpliesMaximalPrevotes: 0 false 1 true 2 error
+	Next    int64       `json:"next"`  // NextHeightBFTParameters(tip) or -1
+	GKeys   []uint32    `json:"gkeys"` // heights with a generator keys entry
+	Gens    []GenProbe  `json:"gens"`  // GetGeneratorKeys at probe heights
+	At      [][2]uint32 `json:"at"`    // (slot, address of Generators.AtTimestamp) for the generators of tip+1
 }
+
+// GenProbe is the answer of GetGeneratorKeys(height): the generator addresses, or Err.
+type GenProbe struct {
+	H     uint32   `json:"h"`
+	Err   bool     `json:"err"`
+	Addrs []uint32 `json:"addrs"`
+}
+
+type slot10 struct{}
+
+func (slot10) GetSlotNumber(unixTime uint32) int { return int(unixTime / 10) }
+
+// Generators builds the generator list of a change: the BFT validators in the given order followed by the standby ones,
+// derived through convert.go's GetBFTValidatorAndGenerators.
+func Generators(c Change) liskbft.Generators {
+	lv := labi.Validators{}
+	for _, v := range c.Vals {
+		lv = append(lv, &labi.Validator{Address: Addr(v.A), BFTWeight: v.W, GeneratorKey: []byte{byte(v.A), 1}, BLSKey: []byte{byte(v.A)}})
+	}
+	for _, a := range c.Standby {
+		lv = append(lv, &labi.Validator{Address: Addr(a), BFTWeight: 0, GeneratorKey: []byte{byte(a), 1}, BLSKey: []byte{}})
+	}
+	_, gens := liskbft.GetBFTValidatorAndGenerators(lv)
+	return gens
+}
+
 type Case struct {
 	K      string  `json:"k"`
 	Batch  int     `json:"batch"`
@@ -101,6 +132,9 @@ func RunCase(c *Case) {
 		return
 	}
 	c.InitOK = true
+	if err := m.API().SetGeneratorKeys(store, Generators(c.Init)); err != nil {
+		panic(err)
+	}
 	commit()
 	for _, b := range c.Blocks {
 		ac := &blockchain.AggregateCommit{}
@@ -134,6 +168,9 @@ func RunCase(c *Case) {
 				c.Obs = append(c.Obs, o)
 				return
 			}
+			if err := m.API().SetGeneratorKeys(store, Generators(*b.Chg)); err != nil {
+				panic(err)
+			}
 		}
 		commit()
 		pv, pc, ct, err := m.API().GetBFTHeights(store)
@@ -162,6 +199,32 @@ func RunCase(c *Case) {
 			o.Next = -1
 		} else {
 			o.Next = int64(nx)
+		}
+		o.GKeys = liskbft.VerifC02GeneratorKeyHeights(store)
+		if o.GKeys == nil {
+			o.GKeys = []uint32{}
+		}
+		oldest := b.H
+		if len(o.Infos) > 0 {
+			oldest = uint32(o.Infos[len(o.Infos)-1][0])
+		}
+		o.Gens = []GenProbe{}
+		for _, h := range []uint32{b.H + 1, b.H, oldest} {
+			gs, err := m.API().GetGeneratorKeys(store, h)
+			p := GenProbe{H: h, Err: err != nil, Addrs: []uint32{}}
+			for _, g := range gs {
+				p.Addrs = append(p.Addrs, AddrN(g.Address()))
+			}
+			o.Gens = append(o.Gens, p)
+		}
+		o.At = [][2]uint32{}
+		if gs, err := m.API().GetGeneratorKeys(store, b.H+1); err == nil && len(gs) > 0 {
+			for _, sl := range []uint32{0, 1, uint32(len(gs)) - 1, uint32(len(gs)), b.H * 7, 429496729} {
+				g, err := gs.AtTimestamp(slot10{}, sl*10+3)
+				if err == nil {
+					o.At = append(o.At, [2]uint32{sl, AddrN(g.Address())})
+				}
+			}
 		}
 		c.Obs = append(c.Obs, o)
 	}
